@@ -278,3 +278,48 @@ def all_patterns(ctx, lang):
     for p in date_patterns(ctx).get(lang, []):
         out.append(('small_date', p, 'SmartCalc::default set_date_rule(%s)' % lang))
     return out
+
+
+# ---------------------------------------------------------------------------------------------
+# helper / closure transparency: calls made on behalf of a function by the closures it creates and by private helpers that
+# only it calls, with their arguments expressed in terms of the *root* function's values
+def _closure_sites(facts, parent):
+    """closure path -> aggregate expression (captures) as built in `parent`"""
+    out = {}
+    for i in parent.normal_blocks:
+        for st in parent.blocks[i]['stmts']:
+            if st['k'] == 'assign' and st['rv'] == 'aggr' and st.get('adt', '').startswith('closure:'):
+                out[st['adt'][8:]] = ('aggr', st['adt'], [parent.expr(o) for o in st['ops']], st.get('fields', []))
+    return out
+
+
+def deep_calls(ctx, root, rx, depth=2):
+    """[(body where the call is written, terminator, [argument expressions resolved into root's terms])] for calls matching
+    `rx` in root, in the closures root creates, and in crate-local helpers called directly from root (to `depth`)"""
+    from .facts import subst_args
+    facts = ctx.facts
+    out = []
+
+    def visit(body, subst, d, seen):
+        for bid, t in body.calls():
+            c = t.get('callee')
+            if not c:
+                continue
+            args = [body.expr(a) for a in t['args']]
+            if subst is not None:
+                args = [subst_args(a, subst) for a in args]
+            if re.search(rx, c['path']):
+                out.append((body, t, args))
+            if d > 0 and c.get('local') and c['path'] in facts.bodies and c['path'] not in seen:
+                hb = facts.bodies[c['path']]
+                if hb.kind in ('fn', 'method') and hb.file.startswith('src/') and len(args) == hb.argc and ctx.cg.owner_step(hb.path) is not None:
+                    visit(hb, args, d - 1, seen | {c['path']})
+        for cpath, agg in _closure_sites(facts, body).items():
+            cb = facts.bodies.get(cpath)
+            if cb is None or cpath in seen:
+                continue
+            a2 = subst_args(agg, subst) if subst is not None else agg
+            env = [a2] + [('arg', j + 1, cb.arg_names.get(j + 1)) for j in range(1, cb.argc)]
+            visit(cb, env, d, seen | {cpath})
+    visit(root, None, depth, {root.path})
+    return out
